@@ -229,7 +229,12 @@ pub fn conc_campaigns(property: &str) -> Vec<ConcCampaign> {
             ConcCampaign { name: "sched-controlled", profile: Sched, cases_quick: 1500, cases_thorough: 15_000, nt: |s| s.sched_steps >= 15 && s.sched_threads >= 3,
             rule: "tiny programs (2-3 client threads x 2-7 operations on 1-2 keys, TTLs, clock moves as program steps) under the controlled scheduler: at every schedule point only the highest-priority parked thread (clients, command worker, sweeper, consumer) runs, priorities and priority change points are generated (PCT style), a thread that does not reach its next point within 0.4 ms is taken to be blocked or idle; all history checkers and quiescence invariants; non-trivial = >= 15 scheduling steps over >= 3 threads" },
             ConcCampaign { name: "conc-deadlock", profile: Deadlock, cases_quick: 900, cases_thorough: 10_000, nt: |s| s.threads >= 3 && s.distinct_sites_delayed >= 2 && s.sweeps_during_run,
-            rule: "generated concurrent programs with maximal lock sharing (2 shards, queue 1, pool 1, buffer 1, 1-3 keys, up to 12 threads, TTL upserts, evictions, sweeps, get_ref guards held without call-back) and delay injection after lock acquisition sites; a case is blocked when no call returned and no acknowledgement completed for the stall window while the threads consumed no CPU; non-trivial = >= 3 threads, >= 2 distinct sites delayed, clock thread driving sweeps" }],
+            rule: "generated concurrent programs with maximal lock sharing (2 shards, queue 1, pool 1, buffer 1, 1-3 keys, up to 12 threads, TTL upserts, evictions, sweeps, get_ref guards held without call-back) and delay injection after lock acquisition sites; a case is blocked when no call returned and no acknowledgement completed for the stall window while the threads consumed no CPU; non-trivial = >= 3 threads, >= 2 distinct sites delayed, clock thread driving sweeps" },
+            ConcCampaign { name: "conc-evict-vs-sweep", profile: EvictVsSweep, cases_quick: 300, cases_thorough: 4000, nt: |s| s.eviction_loop_delayed && s.swept_during_run,
+            rule: "small cache (60-150) full of short-lived TTL keys, heavy puts needing several evictions, the eviction loop delayed 100-800 us per step while a clock thread makes the sweeper collect keys concurrently (worker inside the eviction hook vs. sweeper inside its pass: the two threads that nest the weight lock and the expiry-shard locks); every call must return and every acknowledgement complete; non-trivial = the eviction loop ran AND the sweeper collected at least one key during the run" },
+            ConcCampaign { name: "conc-sweep-race", profile: SweepRace, cases_quick: 300, cases_thorough: 3000, nt: |s| s.swept_during_run && s.ttl_writes >= 2 && s.threads >= 2,
+            rule: "put-with-TTL / TTL change / delete / re-put cycles on three keys by 2-5 threads while the sweeper is delayed inside its pass; every call must return and every acknowledgement complete; non-trivial = the sweeper collected keys during the run and >= 2 TTL writes were accepted" },
+        ],
         _ => Vec::new(),
     }
 }
